@@ -482,6 +482,61 @@ def _elif_shard(seed, n, known):
     return res
 
 
+# ---------------------------------------------------------------- coverage-guided (atheris)
+
+
+def fuzz_setup(workdir):
+    pass
+
+
+def _ast_from_bytes(data):
+    it = iter(data)
+
+    def nxt():
+        return next(it, 0)
+
+    def leaf():
+        k = nxt() % 6
+        if k <= 2:
+            n = mx.BOUNDARY[nxt() % len(mx.BOUNDARY)] if nxt() % 2 else nxt()
+            l = mx.lit(n, ["dec", "dec", "hex", "oct", "bin"][nxt() % 5], mx.SUFFIXES[nxt() % len(mx.SUFFIXES)] if nxt() % 3 == 0 else "")
+            return l if l[3] is not None else mx.lit(1)
+        if k == 3:
+            c = mx.CHARS[nxt() % len(mx.CHARS)]
+            return ("chr", c[0], c[1])
+        if k == 4:
+            return ("id", ["M0", "M1", "UNK"][nxt() % 3])
+        return ("defined", ["M0", "M1", "UNK"][nxt() % 3], bool(nxt() % 2))
+
+    def build(depth):
+        k = nxt() % 10
+        if depth <= 0 or k <= 2:
+            return leaf()
+        if k <= 4:
+            return ("un", mx.UNOPS[nxt() % 4], build(depth - 1))
+        if k <= 7:
+            return ("bin", mx.BINOPS[nxt() % len(mx.BINOPS)], build(depth - 1), build(depth - 1))
+        if k == 8:
+            return ("tern", build(depth - 1), build(depth - 1), build(depth - 1))
+        return ("par", build(depth - 1))
+
+    macros = {}
+    if nxt() % 2:
+        macros["M0"] = leaf()
+    if nxt() % 3 == 0:
+        macros["M1"] = ("par", build(1))
+    return macros, build(4)
+
+
+def fuzz_one(data, stats):
+    case = _ast_from_bytes(data)
+    r = Result()
+    vs = check_case(case, r)
+    if r.evaluations:
+        stats["in_domain"] += 1
+    return vs or None
+
+
 # ---------------------------------------------------------------- entry points
 
 
@@ -508,6 +563,16 @@ def run(ctx):
     res.extra["enumeration_a_size"] = total_small
     res.extra["enumeration_a_stride"] = stride
     res.extra["exhaustive_parts"] = "(b) operator pairs and (c) unary/binary compositions complete; (a) complete iff stride==1"
+    # coverage-guided campaign: bytes -> AST, the ISO C model is the in-target oracle; gcc confirms findings
+    from vlib import fuzz
+
+    findings, stats = fuzz.run_campaign("checks.c02", known, ctx.seed, nprocs=ctx.pick(4, 16), runs=ctx.pick(8000, 600000), max_len=64)
+    res.extra["atheris"] = stats
+    if "executions" in stats:
+        res.evaluations += stats.get("in_domain", 0)
+        res.suppressed.update({"(atheris) known root causes": stats.get("suppressed", 0)})
+    for v in confirm_violations(_dedupe(findings), res, known):
+        res.violation(**{k: v.get(k) for k in ("signature", "case", "expected", "observed", "note")})
     return res
 
 
